@@ -195,7 +195,7 @@ def has_empty_stack(c):
 def slim(c):
     """a replay object without the bulky observations"""
     d = {k: c[k] for k in ("id", "kind", "class", "names", "types", "sel", "mode", "perm")}
-    d["profs"] = [{k: p[k] for k in ("path", "st", "pad", "tagpad", "inl", "bad", "samples")} for p in (c["profs"] or [])]
+    d["profs"] = [{k: p.get(k, 0) for k in ("path", "st", "pad", "tagpad", "inl", "bad", "samples", "fail")} for p in (c["profs"] or [])]
     if c["kind"] == "rows":
         d["mrows"], d["mfuncs"] = c["mrows"], c["mfuncs"]
     return d
@@ -232,6 +232,24 @@ def run_corr(ck):
     tcases = [c for c in cases if c["kind"] != "hash"]
     byid = {c["id"]: c for c in tcases}
     mism, spec, hm = [], {}, []
+    # the insert service: what the property is judged on is the block finally ACCEPTED by the (fake) ClickHouse client;
+    # blocks of failed attempts, of the accepted attempt and the parser output must be the same row, the request untouched
+    stored = [(c, p) for c in tcases if c["kind"] == "e2e" for p in (c["profs"] or []) if p["err"] == "" or p.get("attempts")]
+    retried = [(c, p) for c, p in stored if p.get("fail", 0) > 0 and p.get("attempts", 0) >= 2]
+    bad_idem = [c for c, p in stored if not p.get("req_unchanged", True) or len(set(p.get("blocks") or []) | {p.get("parsed_digest")}) != 1
+                or not p.get("acked") or (p.get("block_ok") or []) != [False] * p.get("fail", 0) + [True]]
+    ck.extra["profiles_through_insert_service"] = len(stored)
+    ck.extra["profiles_with_failed_insert_and_retry"] = len(retried)
+    ck.obligation("process_request_idempotent on the real insert service: %d profiles pushed through impl.NewProfileSamplesInsertService "
+                  "(%d with a failed first insert and a re-submission of the same request): the request is left unchanged and every block "
+                  "handed to the client (failed and accepted attempts) equals the parser's row" % (len(stored), len(retried)),
+                  not bad_idem and len(retried) > 0, "case ids %s" % [c["id"] for c in bad_idem[:10]])
+    if bad_idem:
+        worst = min(bad_idem, key=case_size)
+        ck.violation({"property": "C16", "kind": "the insert service changed the profile request or stored a different row on the retry",
+                      "case": slim(worst), "explanation": "blocks handed to the ClickHouse client for one request differ from each other / from the parser output "
+                      "(profs[].fail = number of failed inserts before the accepted one); the tree stored on the retry is judged by the conservation oracles as well",
+                      "replay": "write the case as one JSON line and run: proftree --cases <file>"})
     bad_proj = [c["id"] for c in tcases if c["kind"] == "e2e" and not projection_agrees(c)]
     ck.obligation("harness projection of the stored rows (SQL emulation) agrees with an independent projection", not bad_proj,
                   "case ids %s" % bad_proj[:10])
